@@ -389,6 +389,11 @@ func drawPre(r *Rng, cfg SpecConfig, m *ModuleSpec) {
 		if r.P(0.2) {
 			add(j(".hidden"), "dot file\n")
 		}
+		if r.P(0.25) {
+			// a directory (not a package) whose name has the output prefix
+			add(j(base+".crds/widget.yaml"), "kind: Widget\n")
+			add(j(base+".crds/README"), "artefacts kept next to the generated code\n")
+		}
 		if r.P(0.3) {
 			// what a killed earlier run may have left behind: a long, stale temporary output
 			g := Pick(r, cfg.GenNames)
